@@ -183,7 +183,26 @@ def run(b, ps, tier, seed):
     impl, model, mism = ({}, {}, [])
     if not b.probe_error and not b.model_error:
         impl, model, mism = S.correspond(b, "tc", cases, project=first_word, timeout=3000)
+    # the syntactic premise of the bisimilarity instance (C07_verdict_bisim): evaluated by the extracted
+    # spec/SynOk.prog_syn_ok on every parsed program
+    syn = {}
+    if not b.model_error:
+        syn = S.run_tool(b.model, "synok", cases, timeout=3000)
     dt = time.time() - t0
+    syn_parsed = [(i, k, t, syn[i]) for i, k, t in cases if syn.get(i, "").startswith("SYN-")]
+    syn_bad = [x for x in syn_parsed if x[3].startswith("SYN-BAD")]
+    syn_bad_acc = [x for x in syn_bad if x[3].endswith("ACCEPT")]
+    if cases and not syn_parsed and not b.model_error:
+        violations.append(C.Violation("the model driver has no `synok` subcommand (extraction area syn missing)",
+                                      {"property": PROP, "kind": "unproven", "no_longer_checks": [{"what": "prog_syn_ok evaluation", "detail": str(list(syn.items())[:2])}]},
+                                      found_input=False))
+    if syn_bad_acc:
+        i, k, t, o = syn_bad_acc[0]
+        violations.append(C.Violation(
+            "prog_syn_ok is false on %d ACCEPTED parsed programs (e.g. %s): the premise of C07_verdict_bisim does not cover them" % (len(syn_bad_acc), i),
+            {"property": PROP, "kind": "unproven", "input_hex": t.encode("latin1", "replace").hex(), "input_text": t[:3000],
+             "no_longer_checks": [{"what": "parse_string s = POk p -> prog_syn_ok p = true (assumed, evaluated on every case)", "detail": o}]},
+            found_input=False))
     # a verdict disagreement is a failing input of C07 (the model's verdict is the declarative one, by theorem)
     verdict_mism = [m for m in mism if accept_bit(m[3]) != accept_bit(m[4])]
     other_mism = [m for m in mism if accept_bit(m[3]) == accept_bit(m[4])]
@@ -254,6 +273,9 @@ def run(b, ps, tier, seed):
         "annotation_dump_equal_on_accepted": [dump_equal, dump_total],
         "mismatches": len(mism),
         "verdict_mismatches": len(verdict_mism),
+        "prog_syn_ok": {"parsed_programs": len(syn_parsed), "true": len(syn_parsed) - len(syn_bad), "false": len(syn_bad),
+                        "false_on_accepted": len(syn_bad_acc),
+                        "false_samples": [{"id": i, "kind": k, "text": t[:160], "obs": o} for i, k, t, o in syn_bad[:3]]},
         "proggen": {k: v for k, v in gen_info.items() if k != "expect"},
         "proggen_mutant_expectations": _expect_stats(gen_info.get("expect", {}), impl),
         "reference_checker": "none separate: the extracted model `typecheck` is itself the decision procedure for ProgOK "
@@ -262,6 +284,9 @@ def run(b, ps, tier, seed):
     }
     return {"violations": violations, "known": [], "coverage": cov,
             "assumptions": [
+                "C07_verdict_bisim (type agreement = bisimilarity, via C08) has the premise prog_syn_ok p = true: every type occurring in p is "
+                "syntactically what the parser produces (names/labels are LABEL lexemes, choices non-empty). That parse_string only yields such "
+                "programs is NOT proved; the extracted prog_syn_ok is evaluated on every parsed program of this run (coverage.prog_syn_ok)",
                 "type agreement in the declarative system is a parameter `teq`; C07_sound / C07_complete assume that EqualType decides it on "
                 "well-formed types over an accepted environment (the two statements of C08); C07_verdict_alg is the closed instance teq := EqualType's answer",
                 "annotations may omit modes: ProgOK is stated on the declarations as completed by AddMissingModalities (relation elab_program)",
